@@ -22,7 +22,7 @@ import z3
 import wntr
 from wntr.network import model as NM, base as NB, elements as EL
 from wntr.network.base import LinkStatus
-from wntr.network.controls import Control, ControlAction, SimTimeCondition, Comparison
+from wntr.network.controls import Control, ControlAction, SimTimeCondition, Comparison, Rule, ValueCondition, OrCondition, AndCondition
 
 from .. import symx
 from ..harness import SymVars, ConcVars
@@ -43,12 +43,18 @@ def start_model(kind):
         wn.add_curve(cn, ct, pts)
     wn.add_reservoir('A', base_head=50.0, head_pattern='P')
     wn.add_junction('B', base_demand=0.01, demand_pattern='P')
+    wn.add_pattern('Q', [0.5, 1.5, 1.0])
+    wn.get_node('B').add_demand(0.002, 'Q', 'second')      # a second demand with a pattern of its own
     if kind == 'rich':
         wn.add_tank('C', elevation=10.0, init_level=3.0, min_level=0.0, max_level=8.0, diameter=5.0, vol_curve='V')
         wn.add_pump('L1', 'A', 'B', 'HEAD', 'H', pattern='P')
         wn.add_pipe('L2', 'B', 'C')
         wn.add_source('S', 'B', 'CONCEN', 1.0, 'P')
         wn.add_control('K', Control(SimTimeCondition(wn, Comparison.eq, 3600), ControlAction(wn.get_link('L2'), 'status', LinkStatus.Closed)))
+        # a rule that READS the pump only in the second operand of an OR and the tank only in the first operand of the AND inside it
+        cond = OrCondition(AndCondition(ValueCondition(wn.get_node('C'), 'level', Comparison.ge, 5.0), SimTimeCondition(wn, Comparison.ge, 7200)),
+                           ValueCondition(wn.get_link('L1'), 'flow', Comparison.le, 0.001))
+        wn.add_control('R', Rule(cond, [ControlAction(wn.get_link('L2'), 'status', LinkStatus.Open)], name='R'))
     return wn
 
 
@@ -259,7 +265,7 @@ def views_consistent(wn):
                 if u not in rec.get(k, set()):
                     bad.append('%s %s is used by %r but has no usage record for it' % (what, k, u))
     for cn, ctl in wn.controls():
-        for req in ctl.requires():
+        for req in control_objects(ctl):
             nm = getattr(req, 'name', None)
             if isinstance(req, NB.Link) and (nm not in links or wn.get_link(nm) is not req):
                 bad.append('control %s requires link %s which is not in the model' % (cn, nm))
@@ -268,16 +274,39 @@ def views_consistent(wn):
     return bad
 
 
+def control_objects(ctl):
+    """the model elements a control reads or writes, found by walking its condition tree and its actions (not through requires())"""
+    out = []
+
+    def walk(c):
+        if c is None:
+            return
+        for a in ('_condition_1', '_condition_2'):
+            if hasattr(c, a):
+                walk(getattr(c, a))
+        for a in ('_source_obj', '_threshold_obj'):
+            o = getattr(c, a, None)
+            if isinstance(o, (NB.Node, NB.Link)):
+                out.append(o)
+    walk(getattr(ctl, '_condition', None))
+    for a in list(getattr(ctl, '_then_actions', []) or []) + list(getattr(ctl, '_else_actions', []) or []):
+        o = getattr(a, '_target_obj', None)
+        if isinstance(o, (NB.Node, NB.Link)):
+            out.append(o)
+    return out
+
+
 def in_use(wn, op, args):
     """is this a removal of an element that is still in use?"""
     if op == 'remove_node' and args[0] in wn.node_name_list:
-        return bool(wn._node_reg._usage.get(args[0])) or any(args[0] in (wn.get_link(l).start_node_name, wn.get_link(l).end_node_name) for l in wn.link_name_list)
+        return (bool(wn._node_reg._usage.get(args[0])) or any(args[0] in (wn.get_link(l).start_node_name, wn.get_link(l).end_node_name) for l in wn.link_name_list)
+                or any(wn.get_node(args[0]) is o for _, c in wn.controls() for o in control_objects(c)))
     if op == 'remove_pattern' and args[0] in wn.pattern_name_list:
         return bool(wn._pattern_reg._usage.get(args[0]))
     if op == 'remove_curve' and args[0] in wn.curve_name_list:
         return bool(wn._curve_reg._usage.get(args[0]))
     if op == 'remove_link' and args[0] in wn.link_name_list:
-        return any(wn.get_link(args[0]) in c.requires() for _, c in wn.controls())
+        return any(wn.get_link(args[0]) is o for _, c in wn.controls() for o in control_objects(c))
     return False
 
 
@@ -373,7 +402,7 @@ def run(rep, only=None):
     rep.encode(NM.NodeRegistry.__setitem__, NM.NodeRegistry.__delitem__, NM.LinkRegistry.__setitem__, NM.LinkRegistry.__delitem__, NM.PatternRegistry.__delitem__ if hasattr(NM.PatternRegistry, '__delitem__') else NB.Registry.__delitem__,
                NB.Registry.add_usage, NB.Registry.remove_usage, NM.WaterNetworkModel.remove_node, NM.WaterNetworkModel.remove_link, NM.WaterNetworkModel.get_links_for_node,
                NB.Link.start_node.fset, NB.Link.end_node.fset, EL.Pump.speed_pattern_name.fset, EL.HeadPump.pump_curve_name.fset, EL.Tank.vol_curve_name.fset)
-    rep.bound('name pools: 3 nodes, 2 links, 2 patterns, 3 curves; 22 operations; start models: empty, base (reservoir + junction + pattern + curves), rich (+ tank with volume curve, head pump with speed pattern, pipe, source, control)')
+    rep.bound('name pools: 3 nodes, 2 links, 2 patterns, 3 curves; 22 operations; start models: empty, base (reservoir + junction with two demands on two patterns + curves), rich (+ tank with volume curve, head pump with speed pattern, pipe, source, second demand with its own pattern, time control, rule with OR / AND condition reading the tank and the pump)')
     rep.bound('quick: all histories of length 1 over all operations and of length 2 per operation family (node / link / registry); thorough: length 2 over all operations, length 3 per family from the rich model')
     tasks = []
     for start in ('empty', 'base', 'rich'):
